@@ -99,11 +99,24 @@ CMP_KEYS = ('oid', 'class', 'nodetype', 'maxaccess', 'indices', 'objects', 'augm
 def prop(case, rec):
     mset = case['mset']
     v2set = {'modules': [transliterate(m) for m in mset['modules']]}
-    c1, mm1 = setcheck.evaluate(mset, backends=('json', 'pysnmp'))
     c2, mm2 = setcheck.evaluate(v2set, backends=('json', 'pysnmp'))
+    c1, mm1 = setcheck.evaluate(mset, backends=('json', 'pysnmp'))
+    _compare(case, rec, mset, c1, mm1, c2, mm2, 'v1')
+    # the default grammar (smiV2 dialect) accepts most SMIv1 texts too - NetworkAddress is an ordinary identifier
+    # there: whatever dialect parsed the SMIv1 text, the result is the same set of objects
+    c3, mm3 = setcheck.evaluate(mset, backends=('json', 'pysnmp'), dialect='smiV2')
+    if any(stage == 'parse' for (n_, stage) in c3.errors):
+        rec.count('v1-text-under-smiV2-grammar.rejected')
+    else:
+        rec.count('v1-text-under-smiV2-grammar.accepted')
+        _compare(case, rec, mset, c3, mm3, c2, mm2, 'v1-parsed-as-smiV2')
+    rec.sample({'v1': dict((k, v[:600]) for k, v in c1.texts.items())})
+
+
+def _compare(case, rec, mset, c1, mm1, c2, mm2, label):
     rec.evaluated()
     extra = {'v1': c1.texts, 'v2': c2.texts}
-    for (c, mm, which) in ((c1, mm1, 'v1'), (c2, mm2, 'v2')):
+    for (c, mm, which) in ((c1, mm1, label), (c2, mm2, 'v2')):
         for backend, facet, detail in mm:
             if facet == 'compile-failed':
                 raise Violation('%s:compile-failed' % which, detail, case, extra)
@@ -141,7 +154,7 @@ def prop(case, rec):
     # model oracle: OIDs (incl. trap OID), nodetype, access, references, pysnmp classes of the SMIv1 rendering
     for backend, facet, detail in mm1:
         if facet in ('oid', 'nodetype', 'maxaccess', 'indices', 'objects', 'class', 'syntax.type'):
-            raise Violation('v1:%s:%s' % (backend, facet), detail, case, extra)
+            raise Violation('%s:%s:%s' % (label, backend, facet), detail, case, extra)
     # imports of the SMIv1 rendering name no SMIv1 base module for symbols that have an SMIv2 home
     for m in mset['modules']:
         name = m['name']
@@ -150,7 +163,6 @@ def prop(case, rec):
         b = getattr(c1, 'builders', {}).get(name)
         if b:
             _check_imports(name, m, None, b[0].imports, case, extra)
-    rec.sample({'v1': dict((k, v[:600]) for k, v in c1.texts.items())})
 
 
 def _check_imports(name, mod, json_imports, py_imports, case, extra):
@@ -180,20 +192,12 @@ def _check_imports(name, mod, json_imports, py_imports, case, extra):
 # Domain B
 
 
-def table_prop(item, rec):
+def _table_check(items, text, fresh, case, rec):
+    """items = [(v1 module, symbol, (home module, home symbol))]; text imports them all."""
     from pysmi.codegen.symtable import SymtableCodeGen
     from pysmi.codegen.jsondoc import JsonCodeGen
     from pysmi.codegen.pysnmp import PySnmpCodeGen
     import json
-    frm, sym, home = item
-    hm, hs = home
-    text = 'TB-MIB DEFINITIONS ::= BEGIN\nIMPORTS %s FROM %s;\nEND\n' % (sym, frm)
-    case = {'module': frm, 'symbol': sym, 'home': list(home)}
-    fid = 'D38' if frm == 'RFC1158-MIB' and sym not in smiv1ref.TABLE['RFC1155-SMI'] and sym not in (
-        'nullSpecific', 'ipRoutingTable', 'snmpEnableAuthTraps') else None
-    if fid and rec.is_known(fid):
-        rec.excluded_by_construction(fid)
-        return
     try:
         tree = pipeline.parser('smiV1Relaxed').parse(text)[0]
         st_ = fixtures.symtables()
@@ -201,7 +205,6 @@ def table_prop(item, rec):
         st_[info.name] = s
         # the code generators get a tree that did NOT go through the symbol-table pass (a second parse of the
         # same text): the conversion of SMIv1 imports must not depend on SymtableCodeGen having rewritten the tree
-        fresh = (hash(sym) % 2 == 0) if False else (len(sym) % 2 == 0)
         tree_j = pipeline.parser('smiV1Relaxed').parse(text)[0] if fresh else copy.deepcopy(tree)
         tree_p = pipeline.parser('smiV1Relaxed').parse(text)[0] if fresh else copy.deepcopy(tree)
         rec.count('tree.' + ('fresh-parse' if fresh else 'after-symtable'))
@@ -210,32 +213,93 @@ def table_prop(item, rec):
         info, ptext = PySnmpCodeGen().genCode(tree_p, st_)
         b, ns = pipeline.exec_module(ptext, 'TB-MIB')
     except Exception as e:
-        raise Violation('table:compile-failed', '%s FROM %s: %r' % (sym, frm, e), case, {'text': text})
+        raise Violation('table:compile-failed', '%r: %r' % ([(i[1], i[0]) for i in items], e), case, {'text': text})
     rec.evaluated()
-    rec.mark_nontrivial(digest(['B', frm, sym]))
-    rec.count('base.' + frm)
     imps = dict((k, v) for k, v in doc.get('imports', {}).items() if isinstance(v, list))
     pyimps = {}
     for k, syms in b.imports:
         pyimps.setdefault(k, []).extend(syms)
-    for label, listed in (('json', imps), ('pysnmp', pyimps)):
-        for v1 in smiv1ref.V1_BASE:
-            if sym in listed.get(v1, []):
-                raise Violation('table:smiv1-import-kept', '%s: %s is still imported from %s' % (label, sym, v1), case,
-                                {'text': text, 'imports': listed})
-        got = listed.get(hm, [])
-        if hs is None:
-            ok = hm in listed
-        elif label == 'pysnmp' and hs in PySnmpCodeGen.SMI_OBJECTS:
-            ok = all(x in got for x in PySnmpCodeGen.SMI_OBJECTS[hs])
-        else:
-            ok = hs in got
-        if not ok:
-            raise Violation('table:wrong-home', '%s: %s FROM %s should be imported as %s::%s; got %r' % (
-                label, sym, frm, hm, hs, dict((k, v) for k, v in listed.items() if k not in ('ASN1', 'ASN1-ENUMERATION', 'ASN1-REFINEMENT'))),
-                case, {'text': text})
+    for frm, sym, home in items:
+        rec.count('base.' + frm)
+        if home is None:
+            # no SMIv2 home: the import must survive, from its own module or from RFC1213-MIB
+            for label, listed in (('json', imps), ('pysnmp', pyimps)):
+                if sym not in listed.get(frm, []) and sym not in listed.get('RFC1213-MIB', []):
+                    raise Violation('table:import-dropped', '%s: %s FROM %s is not imported by the output at all; got %r' % (
+                        label, sym, frm, dict((k, v) for k, v in listed.items() if k not in ('ASN1', 'ASN1-ENUMERATION', 'ASN1-REFINEMENT'))),
+                        case, {'text': text})
+            rec.count('stay-symbol')
+            continue
+        hm, hs = home
+        for label, listed in (('json', imps), ('pysnmp', pyimps)):
+            for v1 in smiv1ref.V1_BASE:
+                if sym in listed.get(v1, []) and (v1, sym) != (hm, hs):
+                    raise Violation('table:smiv1-import-kept', '%s: %s is still imported from %s' % (label, sym, v1), case,
+                                    {'text': text, 'imports': listed})
+            got = listed.get(hm, [])
+            if hs is None:
+                ok = hm in listed
+            elif label == 'pysnmp' and hs in PySnmpCodeGen.SMI_OBJECTS:
+                ok = all(x in got for x in PySnmpCodeGen.SMI_OBJECTS[hs])
+            else:
+                ok = hs in got
+            if not ok:
+                raise Violation('table:wrong-home', '%s: %s FROM %s should be imported as %s::%s; got %r' % (
+                    label, sym, frm, hm, hs, dict((k, v) for k, v in listed.items() if k not in ('ASN1', 'ASN1-ENUMERATION', 'ASN1-REFINEMENT'))),
+                    case, {'text': text})
+    return imps
+
+
+def table_prop(item, rec):
+    frm, sym, home = item
+    text = 'TB-MIB DEFINITIONS ::= BEGIN\nIMPORTS %s FROM %s;\nEND\n' % (sym, frm)
+    case = {'module': frm, 'symbol': sym, 'home': list(home)}
+    fid = 'D38' if frm == 'RFC1158-MIB' and sym not in smiv1ref.TABLE['RFC1155-SMI'] and sym not in (
+        'nullSpecific', 'ipRoutingTable', 'snmpEnableAuthTraps') else None
+    if fid and rec.is_known(fid):
+        rec.excluded_by_construction(fid)
+        return
+    imps = _table_check([item], text, len(sym) % 2 == 0, case, rec)
+    rec.mark_nontrivial(digest(['B', frm, sym]))
     if len(rec.samples) < 3:
         rec.sample({'text': text, 'json_imports': imps})
+
+
+@st.composite
+def multi_cases(draw):
+    """Several SMIv1 base-module imports in one IMPORTS section, in any clause order."""
+    n = len(smiv1ref.pairs()) + len(smiv1ref.stay_pairs())
+    idx = draw(st.lists(st.integers(0, n - 1), min_size=2, max_size=5, unique=True))
+    return {'pairs': idx, 'merge': draw(st.booleans()), 'fresh': draw(st.booleans())}
+
+
+def multi_prop(case, rec):
+    allp = smiv1ref.pairs() + smiv1ref.stay_pairs()
+    items = []
+    seen = set()
+    for i in case['pairs']:
+        frm, sym, home = allp[i]
+        if sym in seen or ((home and home[1]) or sym) in seen:
+            continue        # a name is imported once
+        seen.add(sym)
+        seen.add((home and home[1]) or sym)
+        items.append((frm, sym, home))
+    if len(items) < 2:
+        return
+    clauses = []
+    for frm, sym, home in items:
+        if case['merge'] and clauses and clauses[-1][0] == frm:
+            clauses[-1][1].append(sym)
+        else:
+            clauses.append([frm, [sym]])
+    text = 'TB-MIB DEFINITIONS ::= BEGIN\nIMPORTS\n%s;\nEND\n' % '\n'.join('  %s FROM %s' % (', '.join(c[1]), c[0]) for c in clauses)
+    _table_check(items, text, case['fresh'], case, rec)
+    mods = [c[0] for c in clauses]
+    rec.count('multi.clauses.%d' % len(clauses))
+    if len(set(mods)) >= 2:
+        rec.mark_nontrivial(digest(['Bm', text]))
+    if len(rec.samples) < 5:
+        rec.sample({'text': text})
 
 
 def probes(ctx):
@@ -255,6 +319,7 @@ def probes(ctx):
 def run(ctx):
     ctx.search('differential', cases, prop, ctx.pick(1600, 30000))
     ctx.sweep('table', smiv1ref.pairs(), table_prop)
+    ctx.search('table-multi', multi_cases, multi_prop, ctx.pick(1600, 40000))
     ctx.extra_cov['exhaustive_subdomain'] = 'Domain B: all %d (SMIv1 base module, symbol) pairs of the reference table' % len(smiv1ref.pairs())
     probes(ctx)
 
@@ -263,7 +328,9 @@ def replay(ctx, data):
     from vlib.core import Recorder
     rec = Recorder(ctx.findings)
     case = data['case']
-    if 'symbol' in case:
+    if 'pairs' in case:
+        multi_prop(case, rec)
+    elif 'symbol' in case:
         table_prop((case['module'], case['symbol'], tuple(case['home'])), rec)
     else:
         prop(case, rec)
